@@ -305,6 +305,32 @@ fn decode_encode(ctx: &mut Ctx, h: &RHeader, detail_checks: bool) -> bool {
             }
             Err(p) => ctx.panic("Header::to_writer", &p, json!({"header_hex": hex(&b)})),
         }
+        // the conversion entry point derived for the type (`TryFrom<&[u8]>`): same value for the full header, an error (never a
+        // panic) for every truncation
+        match guard(|| Header::try_from(&b[..])) {
+            Ok(Ok(h2)) => {
+                let mut o2 = Vec::new();
+                if h2.to_writer(&mut o2).is_err() || o2 != out {
+                    ctx.violation("Header::try_from", "differs", "TryFrom<&[u8]> yields a different header than from_bytes", "re-serialisation differs", json!({"header_hex": hex(&b)}));
+                    ok = false;
+                }
+            }
+            Ok(Err(_)) => {
+                ctx.violation("Header::try_from", "rejects-valid", "valid header rejected by TryFrom<&[u8]>", "Err", json!({"header_hex": hex(&b)}));
+                ok = false;
+            }
+            Err(p) => ctx.panic("Header::try_from", &p, json!({"header_hex": hex(&b)})),
+        }
+        for cut in [rng.usize(0, 126), rng.usize(100, 126), 126] {
+            match guard(|| Header::try_from(&b[..cut]).is_ok()) {
+                Ok(false) => ctx.count("truncations_rejected_by_try_from"),
+                Ok(true) => {
+                    ctx.violation("Header::try_from", "accepts-invalid", "a truncated header is accepted by TryFrom<&[u8]>", &format!("{cut} bytes"), json!({"header_hex": hex(&b[..cut])}));
+                    ok = false;
+                }
+                Err(p) => ctx.panic("Header::try_from", &p, json!({"header_hex": hex(&b[..cut]), "bytes": cut})),
+            }
+        }
         ctx.count("detail_checks");
     }
     ok
